@@ -4,6 +4,7 @@ import (
 	"bytes"
 	"fmt"
 	"testing"
+	"time"
 
 	gots "github.com/Comcast/gots/v2"
 	"github.com/Comcast/gots/v2/ebp"
@@ -25,19 +26,39 @@ import (
 // ---------------------------------------------------------------------------
 // PES headers (C04: timestamps read back unchanged; C11: every getter)
 
-func sessPES(c CaseC11, a *hx.Arena) (hx.SessionRun, *hx.Failure) {
-	p := c.PES
-	raw := a.Copy(0, p.Bytes())
-	h, err := pes.NewPESHeader(raw)
-	if err != nil {
-		return hx.SessionRun{}, hx.Failf("pes-error", "NewPESHeader failed on a well-formed PES start: %v", err)
+func sessPES(c CaseC11, a *hx.Arena) (hx.SessionRun, *hx.Failure) { return sessPESFor("C11")(c, a) }
+
+// sessPESFor: C11 compares every getter of the retained header, C04 only the time stamps it carries.
+func sessPESFor(id string) func(c CaseC11, a *hx.Arena) (hx.SessionRun, *hx.Failure) {
+	return func(c CaseC11, a *hx.Arena) (hx.SessionRun, *hx.Failure) {
+		p := c.PES
+		raw := a.Copy(0, p.Bytes())
+		h, err := pes.NewPESHeader(raw)
+		if err != nil {
+			if id == "C04" {
+				return hx.SessionRun{}, nil // header decoding as such is C11's business
+			}
+			return hx.SessionRun{}, hx.Failf("pes-error", "NewPESHeader failed on a well-formed PES start: %v", err)
+		}
+		n := 0
+		probe := func() *hx.Failure {
+			n++
+			if id == "C04" {
+				if !ref.PESHasOptionalHeader(p.StreamID) || p.StreamID == 0xBC {
+					return nil
+				}
+				if p.PTSDTS != 0 && h.HasPTS() && h.PTS() != p.PTS {
+					return hx.Failf("pes-pts", "PTS() = %d, the header carries %d", h.PTS(), p.PTS)
+				}
+				if p.PTSDTS == 3 && h.HasDTS() && h.DTS() != p.DTS {
+					return hx.Failf("pes-dts", "DTS() = %d, the header carries %d", h.DTS(), p.DTS)
+				}
+				return nil
+			}
+			return c11CompareHeader(h, &p, c.CC+n)
+		}
+		return hx.SessionRun{Probes: []hx.Probe{probe}}, nil
 	}
-	n := 0
-	probe := func() *hx.Failure {
-		n++
-		return c11CompareHeader(h, &p, c.CC+n)
-	}
-	return hx.SessionRun{Probes: []hx.Probe{probe}}, nil
 }
 
 func varyPES(t *rapid.T, c CaseC11) CaseC11 {
@@ -55,7 +76,7 @@ var propC11Sess = hx.Register(hx.Prop[hx.SessCase[CaseC11]]{ID: "C11", Variant: 
 
 var propC04Sess = hx.Register(hx.Prop[hx.SessCase[CaseC11]]{ID: "C04", Variant: "pes-session", Thin: 8,
 	Gen:   func(t *rapid.T) hx.SessCase[CaseC11] { return hx.GenSession(t, genC11, varyPES) },
-	Check: func(sc hx.SessCase[CaseC11], x *hx.Ctx) *hx.Failure { return hx.RunSession(sc, x, sessPES) }})
+	Check: func(sc hx.SessCase[CaseC11], x *hx.Ctx) *hx.Failure { return hx.RunSession(sc, x, sessPESFor("C04")) }})
 
 func TestC11_Session(t *testing.T) { c11Rule(); propC11Sess.Run(t) }
 func TestC04_Session(t *testing.T) { c04Rule(); propC04Sess.Run(t) }
@@ -122,67 +143,83 @@ func TestC07_Session(t *testing.T) { c07Rule(); propC07Sess.Run(t) }
 // ---------------------------------------------------------------------------
 // PMT decoding and filtering (C06, C14, C13's emitted PMT, C20's by-PID query)
 
-func sessPMT(c CaseC14, a *hx.Arena) (hx.SessionRun, *hx.Failure) {
-	m := c.PMT
-	car := ref.Carrier{Pointer: c.Pointer, Trailing: c.Trailing}
-	payload := a.Copy(0, car.Payload(m.Section()))
-	pmt, err := psi.NewPMT(payload)
-	if err != nil {
-		return hx.SessionRun{}, hx.Failf("newpmt-error", "NewPMT failed on a well-formed payload: %v", err)
-	}
-	// filter with the caller's packet objects recycled in reuse mode
-	var reuse func(i int) *packet.Packet
-	if a.Reuse {
-		reuse = func(i int) *packet.Packet {
-			if a.Slots == nil {
-				a.Slots = map[string]interface{}{}
+// sessPMTFor builds the session runner of one property: each property's session applies only the
+// clauses of its own statement (a deviation in the filter must not be reported under C06, and so on).
+//
+//	C06: NewPMT and ReadPMT (through a reader that fragments and reports EOF together with data), retained stream list
+//	C14: the filter oracle with the caller's packet objects recycled
+//	C13: the CRC residue of the emitted section
+//	C20: the by-PID lag query on the retained PMT
+func sessPMTFor(id string) func(c CaseC14, a *hx.Arena) (hx.SessionRun, *hx.Failure) {
+	return func(c CaseC14, a *hx.Arena) (hx.SessionRun, *hx.Failure) {
+		m := c.PMT
+		car := ref.Carrier{Pointer: c.Pointer, Trailing: c.Trailing}
+		switch id {
+		case "C14":
+			// filter with the caller's packet objects recycled in reuse mode
+			var reuse func(i int) *packet.Packet
+			if a.Reuse {
+				reuse = func(i int) *packet.Packet {
+					if a.Slots == nil {
+						a.Slots = map[string]interface{}{}
+					}
+					k := fmt.Sprintf("pkt%d", i)
+					if p, ok := a.Slots[k].(*packet.Packet); ok {
+						return p
+					}
+					p := &packet.Packet{}
+					a.Slots[k] = p
+					return p
+				}
 			}
-			k := fmt.Sprintf("pkt%d", i)
-			if p, ok := a.Slots[k].(*packet.Packet); ok {
-				return p
-			}
-			p := &packet.Packet{}
-			a.Slots[k] = p
-			return p
+			return hx.SessionRun{}, c14Core(c, &hx.Ctx{}, reuse)
+		case "C13":
+			return hx.SessionRun{}, checkC13Pmt(c, &hx.Ctx{})
 		}
-	}
-	if f := c14Core(c, &hx.Ctx{}, reuse); f != nil {
-		return hx.SessionRun{}, f
-	}
-	// reading from a stream through a reader that fragments and reports EOF together with data
-	if len(m.Streams) > 0 {
-		pk, _ := ref.Packetise(car.Payload(m.Section()), c.PID, c.CC, c.Sizes)
-		var stream []byte
-		for _, p := range pk {
-			b := p.MustBytes()
-			stream = append(stream, b[:]...)
-		}
-		r := &fragReader{data: stream, chunks: []int{1 + c.CC*13, 100, 7}, eofWithData: true, failAfter: -1}
-		got, err := psi.ReadPMT(r, c.PID)
+		payload := a.Copy(0, car.Payload(m.Section()))
+		pmt, err := psi.NewPMT(payload)
 		if err != nil {
-			return hx.SessionRun{}, hx.Failf("readpmt-error", "ReadPMT failed on a well-formed stream read in chunks with EOF delivered together with the last bytes: %v", err)
+			if id == "C20" {
+				return hx.SessionRun{}, nil // decoding is C06's business
+			}
+			return hx.SessionRun{}, hx.Failf("newpmt-error", "NewPMT failed on a well-formed payload: %v", err)
 		}
-		if f := c06CompareStreams("ReadPMT(fragmenting reader)", got, &m); f != nil {
-			return hx.SessionRun{}, f
+		if id == "C20" {
+			probe := func() *hx.Failure {
+				for _, s := range m.Streams {
+					if got := pmt.IsPidForStreamWherePresentationLagsEbp(s.PID); got != c20Lag[int(s.StreamType)] {
+						return hx.Failf("lag-query", "IsPidForStreamWherePresentationLagsEbp(%d) = %v for stream_type %#x", s.PID, got, s.StreamType)
+					}
+				}
+				return nil
+			}
+			return hx.SessionRun{Probes: []hx.Probe{probe}}, nil
 		}
-	}
-	probe := func() *hx.Failure {
-		if f := c06CompareStreams("session NewPMT", pmt, &m); f != nil {
-			return f
-		}
-		for _, s := range m.Streams {
-			if got := pmt.IsPidForStreamWherePresentationLagsEbp(s.PID); got != c20Lag[int(s.StreamType)] {
-				return hx.Failf("lag-query", "IsPidForStreamWherePresentationLagsEbp(%d) = %v for stream_type %#x", s.PID, got, s.StreamType)
+		// C06: reading from a stream through a reader that fragments and reports EOF together with data
+		pk, _ := ref.Packetise(car.Payload(m.Section()), c.PID, c.CC, c.Sizes)
+		if len(m.Streams) > 0 && len(c.Sizes) > 0 && c.Sizes[0] > c.Pointer+1 {
+			var stream []byte
+			for _, p := range pk {
+				b := p.MustBytes()
+				stream = append(stream, b[:]...)
+			}
+			r := &fragReader{data: stream, chunks: []int{1 + c.CC*13, 100, 7}, eofWithData: true, failAfter: -1}
+			got, err := psi.ReadPMT(r, c.PID)
+			if err != nil {
+				return hx.SessionRun{}, hx.Failf("readpmt-error", "ReadPMT failed on a well-formed stream read in chunks with EOF delivered together with the last bytes: %v", err)
+			}
+			if f := c06CompareStreams("ReadPMT(fragmenting reader)", got, &m); f != nil {
+				return hx.SessionRun{}, f
 			}
 		}
-		return nil
-	}
-	mutate := func() {
-		if len(m.Streams) > 0 {
-			pmt.RemoveElementaryStreams([]int{m.Streams[0].PID})
+		probe := func() *hx.Failure { return c06CompareStreams("session NewPMT", pmt, &m) }
+		mutate := func() {
+			if len(m.Streams) > 0 {
+				pmt.RemoveElementaryStreams([]int{m.Streams[0].PID})
+			}
 		}
+		return hx.SessionRun{Probes: []hx.Probe{probe}, Mutate: mutate}, nil
 	}
-	return hx.SessionRun{Probes: []hx.Probe{probe}, Mutate: mutate}, nil
 }
 
 // varyPMT keeps every length and the program header, changes stream content.
@@ -208,7 +245,7 @@ func varyPMT(t *rapid.T, c CaseC14) CaseC14 {
 func pmtSessProp(id string) hx.Prop[hx.SessCase[CaseC14]] {
 	return hx.Register(hx.Prop[hx.SessCase[CaseC14]]{ID: id, Variant: "pmt-session", Thin: 12,
 		Gen:   func(t *rapid.T) hx.SessCase[CaseC14] { return hx.GenSession(t, genC14, varyPMT) },
-		Check: func(sc hx.SessCase[CaseC14], x *hx.Ctx) *hx.Failure { return hx.RunSession(sc, x, sessPMT) }})
+		Check: func(sc hx.SessCase[CaseC14], x *hx.Ctx) *hx.Failure { return hx.RunSession(sc, x, sessPMTFor(id)) }})
 }
 
 var propC06Sess, propC14Sess, propC13PmtSess, propC20Sess = pmtSessProp("C06"), pmtSessProp("C14"), pmtSessProp("C13"), pmtSessProp("C20")
@@ -337,7 +374,7 @@ func sessEBP(c CaseC12, a *hx.Arena) (hx.SessionRun, *hx.Failure) {
 		got.SetSap(got.Sap() ^ 0x5A)
 		got.SetSapFlag(true)
 		got.SetTimeFlag(true)
-		got.SetEBPTime(got.EBPTime().Add(1e9))
+		got.SetEBPTime(time.Unix(1700000000, 5).UTC()) // an instant inside the representable range whatever was decoded
 	}
 	return hx.SessionRun{Probes: []hx.Probe{probe}, Mutate: mutate, Extend: func() { appendJunk(first) }}, nil
 }
@@ -360,6 +397,16 @@ func TestC12_Session(t *testing.T) { c12Rule(); propC12Sess.Run(t) }
 // packet payload copies and creation helpers (C02), counter helpers (C01)
 
 func sessPacket(c CaseC02, a *hx.Arena) (hx.SessionRun, *hx.Failure) {
+	return sessPacketFor("C02")(c, a)
+}
+
+// sessPacketFor: C02 retains the payload copy and the packets of the creation helpers, C01 the results of
+// the copy-returning continuity-counter helpers.
+func sessPacketFor(id string) func(c CaseC02, a *hx.Arena) (hx.SessionRun, *hx.Failure) {
+	return func(c CaseC02, a *hx.Arena) (hx.SessionRun, *hx.Failure) { return sessPacketRun(id, c, a) }
+}
+
+func sessPacketRun(id string, c CaseC02, a *hx.Arena) (hx.SessionRun, *hx.Failure) {
 	var b [188]byte
 	copy(b[:], c.Pkt)
 	m, ok := ref.ParsePacket(b)
@@ -370,7 +417,7 @@ func sessPacket(c CaseC02, a *hx.Arena) (hx.SessionRun, *hx.Failure) {
 	var probes []hx.Probe
 	var mutators []func()
 	var owned [][]byte // slices the library handed to the caller
-	if m.AFC&1 != 0 {
+	if id == "C02" && m.AFC&1 != 0 {
 		res, err := p.Payload()
 		owned = append(owned, res)
 		if err != nil {
@@ -400,9 +447,12 @@ func sessPacket(c CaseC02, a *hx.Arena) (hx.SessionRun, *hx.Failure) {
 	}
 	ms := []made{
 		{"CreateTestPacket", packet.CreateTestPacket(pid, cc, c.PUSI, c.Pay), c.Pay, c.PUSI && c.Pay},
-		{"CreateDCPacket", packet.CreateDCPacket(pid, cc), true, false},
+		{"CreateDCPacket", packet.CreateDCPacket(pid, cc), packet.CreateDCPacket(pid, cc)[3]&0x10 != 0, false}, // the payload flag is not among the requested fields
 		{"CreatePacketWithPayload", packet.CreatePacketWithPayload(pid, cc, c.HPay), true, false},
 		{"Create", packet.Create(pid, packet.WithHasPayloadFlag), true, false},
+	}
+	if id != "C02" {
+		ms = nil
 	}
 	for _, mk := range ms {
 		mk := mk
@@ -434,13 +484,16 @@ func sessPacket(c CaseC02, a *hx.Arena) (hx.SessionRun, *hx.Failure) {
 	arg := p
 	outs := []*packet.Packet{packet.IncrementCC(&arg), packet.ZeroCC(&arg), packet.SetCC(&arg, cc)}
 	wantCC := []int{(int(b[3]&0xf) + 1) % 16, 0, int(cc)}
+	if id != "C01" {
+		outs = nil
+	}
 	for i, o := range outs {
 		i, o := i, o
 		probes = append(probes, func() *hx.Failure {
 			if arg != packet.Packet(b) {
 				return hx.Failf("copy-cc-mutates", "a copy-returning counter helper modified its argument")
 			}
-			if o == &arg || int(o[3]&0xf) != wantCC[i] || o[3]&0xf0 != b[3]&0xf0 || !bytes.Equal(o[:3], b[:3]) || !bytes.Equal(o[4:], b[4:]) {
+			if int(o[3]&0xf) != wantCC[i] || o[3]&0xf0 != b[3]&0xf0 || !bytes.Equal(o[:3], b[:3]) || !bytes.Equal(o[4:], b[4:]) {
 				return hx.Failf("copy-cc-result", "the packet returned by counter helper %d no longer is the argument with counter %d", i, wantCC[i])
 			}
 			return nil
@@ -472,8 +525,10 @@ var propC02Sess = hx.Register(hx.Prop[hx.SessCase[CaseC02]]{ID: "C02", Variant: 
 	Check: func(sc hx.SessCase[CaseC02], x *hx.Ctx) *hx.Failure { return hx.RunSession(sc, x, sessPacket) }})
 
 var propC01Sess = hx.Register(hx.Prop[hx.SessCase[CaseC02]]{ID: "C01", Variant: "session", Thin: 8,
-	Gen:   func(t *rapid.T) hx.SessCase[CaseC02] { return hx.GenSession(t, genC02Sess, nil) },
-	Check: func(sc hx.SessCase[CaseC02], x *hx.Ctx) *hx.Failure { return hx.RunSession(sc, x, sessPacket) }})
+	Gen: func(t *rapid.T) hx.SessCase[CaseC02] { return hx.GenSession(t, genC02Sess, nil) },
+	Check: func(sc hx.SessCase[CaseC02], x *hx.Ctx) *hx.Failure {
+		return hx.RunSession(sc, x, sessPacketFor("C01"))
+	}})
 
 func TestC02_Session(t *testing.T) { c02Rule(); propC02Sess.Run(t) }
 func TestC01_Session(t *testing.T) { c01Rule(); propC01Sess.Run(t) }
